@@ -1,7 +1,9 @@
 // go2v — a translator from a subset of Go to Gallina (see gen/TRANSLATOR.md).
 //
 // trans.go      : package loading + type checking (go/types with a stub importer), type mapping, struct -> Record,
-//                 call graph / effect analysis (does a method write its receiver? does a function loop?), emission.
+//
+//	call graph / effect analysis (does a method write its receiver? does a function loop?), emission.
+//
 // trans_expr.go : expressions (continuation-passing: every sub-expression that can panic becomes a bind).
 // trans_stmt.go : statements, join points, loops.
 //
@@ -21,9 +23,27 @@ import (
 
 // TransSpec says what to translate.
 type TransSpec struct {
-	Dir     string   // package directory below the repository root
-	Structs []string // struct types that become Records
-	Funcs   []string // "Recv.Name" or "Name"; callees inside the package are pulled in automatically
+	Dir       string                   // package directory below the repository root
+	Structs   []string                 // struct types that become Records
+	Funcs     []string                 // "Recv.Name" or "Name"; callees inside the package are pulled in automatically
+	Extern    []string                 // [seq] functions translated by another area (its Gen file is imported by the caller's header): analysed, not emitted
+	Expect    map[string][]ExpectField // [stable] struct -> its pristine fields (name, Go type) in order: stable Record names (trans_stable.go)
+	TimedTail []string                 // [seq] functions whose body is translated up to the first statement using package time (trans_seq.go)
+	// [ext:T20] (gen/trans_ext20.go) -------------------------------------------------------------------------------
+	Globals    []string // package-level variables treated as explicit state: read -> extra parameter, written -> extra result
+	WrapSigned bool     // int8/16/32/64 wrap around (swrap N) instead of being unbounded; `int` stays unbounded
+	Frags      []FragSpec
+	T15        T15Spec // [ext:T15] (gen/trans_ext15.go) byte-sequence type parameters, real imports, error kinds, out-parameters
+	// [ext:T08] (gen/trans_ext08.go) -------------------------------------------------------------------------------
+	Stubs         map[string]string // import path -> declarations (Go source) of a foreign package, as far as the code uses it
+	ModuleImports bool              // packages of the translated module are type-checked from their source in the tree
+	Foreign       []ForeignSpec     // functions / methods of other packages: fields of the generated `Record Foreign`
+	OutParams     map[string][]int  // function -> slice parameters that are output buffers (returned in front of the results)
+	ErrCodes      []ErrCode         // errors.New / fmt.Errorf texts -> error codes
+	// [func] (gen/trans_func.go) InOut (opt-in, see "In-out slice parameters" in TRANSLATOR.md): a slice parameter that a
+	// function only indexes, measures, ranges over or passes on in the same way, and whose elements it writes, is returned
+	// to the caller (after the receiver, before the results) and the caller rebinds the variable / field it passed.
+	InOut bool
 }
 
 type unsupported struct{ msg string }
@@ -37,13 +57,24 @@ const (
 	kElem               // a type parameter -> Z, zero value 0
 	kSlice              // []int-like / []T -> list Z
 	kStruct             // a translated struct (or a pointer to it) -> its Record
+	kPlace              // [seq] h := &s[i], s a slice of translated structs -> the index (trans_seq.go)
+	kErr                // [ext:T20] error -> Z: nil = 0, a sentinel `var ErrX = errors.New(..)` = a positive code
+	kOpaque             // [ext:T08] a value of a foreign type: `<type> ext'`, a field of the Record Foreign
+	kFunc               // [func] a function-typed parameter / field (trans_func.go) -> a Gallina function
 )
 
 type gtype struct {
-	k    kind
-	bits int
-	st   *structInfo
-	ptr  bool
+	k     kind
+	bits  int
+	st    *structInfo
+	ptr   bool
+	elem  *structInfo // [seq] kSlice: the element struct of a []S (nil: list Z)
+	str   bool        // [ext:T20] kSlice that is a Go string (immutable bytes)
+	arr   int64       // [ext:T20] kSlice that is a Go array [arr]T (isArr)
+	isArr bool
+	nest  bool     // [ext:T08] kSlice whose elements are slices of integers: list (list Z)
+	opq   string   // [ext:T08] kOpaque: the Record field that is its type
+	fn    *funcSig // [func] kFunc
 }
 
 func (g gtype) coq() string {
@@ -51,9 +82,19 @@ func (g gtype) coq() string {
 	case kBool:
 		return "bool"
 	case kSlice:
+		if g.elem != nil { // [seq]
+			return "list " + g.elem.name
+		}
+		if g.nest { // [ext:T08]
+			return "list (list Z)"
+		}
 		return "list Z"
 	case kStruct:
 		return g.st.name
+	case kOpaque: // [ext:T08]
+		return "(" + g.opq + " ext')"
+	case kFunc:
+		return g.fn.coq()
 	}
 	return "Z"
 }
@@ -62,18 +103,27 @@ func (g gtype) zero() string {
 	case kBool:
 		return "false"
 	case kSlice:
+		if g.isArr && g.nest { // [ext:T08]
+			return fmt.Sprintf("(repeat [] %d)", g.arr)
+		}
+		if g.isArr { // [ext:T20]
+			return fmt.Sprintf("(repeat 0 %d)", g.arr)
+		}
 		return "[]"
 	case kStruct:
 		return "zero_" + g.st.name
+	case kFunc:
+		return "nil_func_is_not_modelled" // never emitted: declarations needing it are refused (trans_func.go)
 	}
 	return "0"
 }
 
 type structInfo struct {
-	name   string
-	obj    *types.TypeName
-	fields []string
-	ftypes []gtype
+	name    string
+	obj     *types.TypeName
+	fields  []string
+	ftypes  []gtype
+	goNames []string // [stable] the Go name of each field (fields: the emitted names), same order
 }
 
 type funcInfo struct {
@@ -89,6 +139,17 @@ type funcInfo struct {
 	callees map[*funcInfo]bool
 	named   []*types.Var // [BitsCode] named results (all or none)
 	done    bool
+	// [ext:T20]
+	greads, gwrites map[*globalInfo]bool // package-level state read / written (directly or through calls)
+	ignoredRecv     bool                 // a receiver of an untranslatable type that the body never mentions
+	frag            *fragInfo            // a loop fragment of a function instead of a whole function
+	// [ext:T08]
+	foreign bool  // calls a foreign function (directly or through calls): takes `ext' : Foreign`
+	outs    []int // slice parameters that are output buffers
+	// [func] (trans_func.go)
+	noesc  []bool // per parameter: a slice the function neither keeps, reslices, returns nor reassigns
+	inout  []bool // per parameter: noesc and written in place (directly or through calls): returned to the caller
+	outs15 []int  // [ext:T15] indices of the slice parameters written in place (returned before the results)
 }
 
 type Translator struct {
@@ -100,14 +161,30 @@ type Translator struct {
 	byName  map[string]*ast.FuncDecl
 	order   []*funcInfo
 	global  map[string]bool // Coq names that locals must not shadow
+	seq     *seqState       // [seq] sequential reading of atomics, places, timed tails (trans_seq.go)
+	ext20                   // [ext:T20] state of gen/trans_ext20.go
+	ext08                   // [ext:T08] state of gen/trans_ext08.go
+	inOut   bool            // [func] TransSpec.InOut
+	ext15                   // [ext:T15] state of gen/trans_ext15.go
 }
 
 type stubImporter struct{}
 
 func (stubImporter) Import(path string) (*types.Package, error) {
+	if p := seqStubPackage(path); p != nil { // [seq] sync/atomic, runtime, time: typed stubs
+		return p, nil
+	}
+	if p := import08(path); p != nil { // [ext:T08] TransSpec.Stubs, packages of the translated module
+		return p, nil
+	}
 	p := types.NewPackage(path, filepath.Base(path))
 	if path == "math/bits" { // [BitsCode] the population counts of math/bits are typed, so that calls to them translate
 		declareOnesCount(p)
+	}
+	if path == "errors" { // [ext:T20] errors.New has a type, so that `var ErrX = errors.New("..")` and `err == ErrX` are typed
+		sig := types.NewSignatureType(nil, nil, nil, types.NewTuple(types.NewVar(token.NoPos, p, "text", types.Typ[types.String])),
+			types.NewTuple(types.NewVar(token.NoPos, p, "", types.Universe.Lookup("error").Type())), false)
+		p.Scope().Insert(types.NewFunc(token.NoPos, p, "New", sig))
 	}
 	p.MarkComplete()
 	return p, nil
@@ -137,8 +214,14 @@ func (t *Translator) typeOf(ty types.Type, n ast.Node) gtype {
 	if ty == nil {
 		t.fail(n, "expression without a type")
 	}
+	if g, ok := t.type08(ty, n); ok { // [ext:T08] opaque foreign types, [][]byte, byte-like type parameters
+		return g
+	}
 	switch x := ty.(type) {
 	case *types.Basic:
+		if g, ok := t.basic20(x); ok { // [ext:T20] string; intN when TransSpec.WrapSigned
+			return g
+		}
 		switch x.Kind() {
 		case types.Int, types.Int64, types.UntypedInt, types.UntypedRune:
 			return gtype{k: kInt}
@@ -155,12 +238,23 @@ func (t *Translator) typeOf(ty types.Type, n ast.Node) gtype {
 		case types.UntypedNil:
 			return gtype{k: kSlice}
 		}
+	case *types.Array: // [ext:T20]
+		e := t.typeOf(x.Elem(), n)
+		if (e.k == kInt || e.k == kUint) && x.Len() >= 0 {
+			return gtype{k: kSlice, isArr: true, arr: x.Len()}
+		}
 	case *types.TypeParam:
+		if g, ok := t.typeParam15(x); ok { // [ext:T15] T ~string | ~[]byte -> its byte-list instantiation
+			return g
+		}
 		return gtype{k: kElem}
 	case *types.Slice:
 		e := t.typeOf(x.Elem(), n)
 		if e.k == kInt || e.k == kUint || e.k == kElem {
 			return gtype{k: kSlice}
+		}
+		if e.k == kStruct && !e.ptr { // [seq] []S for a translated struct S
+			return gtype{k: kSlice, elem: e.st}
 		}
 	case *types.Pointer:
 		if nm, ok := x.Elem().(*types.Named); ok {
@@ -168,9 +262,16 @@ func (t *Translator) typeOf(ty types.Type, n ast.Node) gtype {
 				return gtype{k: kStruct, st: si, ptr: true}
 			}
 		}
+	case *types.Signature:
+		if fs := t.funcSigOf(x, n); fs != nil {
+			return gtype{k: kFunc, fn: fs}
+		}
 	case *types.Named:
 		if si := t.structs[x.Origin().Obj()]; si != nil {
 			return gtype{k: kStruct, st: si}
+		}
+		if x.Obj().Pkg() == nil && x.Obj().Name() == "error" { // [ext:T20]
+			return gtype{k: kErr}
 		}
 		if _, ok := x.Underlying().(*types.Basic); ok {
 			return t.typeOf(x.Underlying(), n)
@@ -193,7 +294,8 @@ func (t *Translator) exprType(e ast.Expr) gtype {
 var coqReserved = strings.Fields(`as at cofix else end exists exists2 fix for forall fun if IF in let match mod Prop return Set then
  Type using where with Z nat list bool unit option true false tt fst snd inl inr negb andb orb xorb eqb repeat length app
  fuel bind Ret Panic NoFuel lift lift_fuel mmap zlen wrap m_rem m_quot m_shl m_shr m_get m_set m_slice m_make m_make_cap
- m_copy copy_all gocopy gorem goquot get_at set_at slice upd while ctl Next Break Return M Some None S O ones_count`)
+ m_copy copy_all gocopy gorem goquot get_at set_at slice upd while ctl Next Break Return M Some None S O
+ swrap str_of_byte ones_count`)
 
 func funcKey(fd *ast.FuncDecl) string {
 	n := fd.Name.Name
@@ -222,7 +324,7 @@ func Translate(repo string, spec TransSpec) (out string, err error) {
 		return "", e
 	}
 	t := &Translator{fset: p.Fset, repo: repo, structs: map[*types.TypeName]*structInfo{}, funcs: map[*types.Func]*funcInfo{},
-		byName: map[string]*ast.FuncDecl{}, global: map[string]bool{}}
+		byName: map[string]*ast.FuncDecl{}, global: map[string]bool{}, inOut: spec.InOut}
 	defer func() {
 		if r := recover(); r != nil {
 			if u, ok := r.(unsupported); ok {
@@ -234,7 +336,9 @@ func Translate(repo string, spec TransSpec) (out string, err error) {
 	}()
 	t.info = &types.Info{Types: map[ast.Expr]types.TypeAndValue{}, Defs: map[*ast.Ident]types.Object{},
 		Uses: map[*ast.Ident]types.Object{}, Selections: map[*ast.SelectorExpr]*types.Selection{}}
+	defer begin08(repo, spec)() // [ext:T08] import context (stubs of foreign packages)
 	conf := types.Config{Importer: stubImporter{}, Error: func(error) {}}
+	conf.Importer = t.importer15(spec, conf.Importer) // [ext:T15] real packages of the module, typed fmt.Errorf / encoding/hex stubs
 	tpkg, _ := conf.Check(spec.Dir, p.Fset, p.Files, t.info)
 	if tpkg == nil {
 		return "", fmt.Errorf("type checking %s failed", spec.Dir)
@@ -242,9 +346,17 @@ func Translate(repo string, spec TransSpec) (out string, err error) {
 	for _, w := range coqReserved {
 		t.global[w] = true
 	}
+	t.seqInit(spec, tpkg, p.Files) // [seq]
+	t.setup20(p, tpkg, spec)       // [ext:T20]
+	t.setup08(spec)                // [ext:T08]
+	t.setup15(spec)                // [ext:T15]
 	for _, f := range p.Files {
 		for _, d := range f.Decls {
 			if fd, ok := d.(*ast.FuncDecl); ok && fd.Body != nil {
+				if fd.Recv == nil && fd.Name.Name == "init" { // [ext:T20] several init() may exist: keyed by the global they assign
+					t.keyInit20(fd)
+					continue
+				}
 				t.byName[funcKey(fd)] = fd
 			}
 		}
@@ -280,6 +392,21 @@ func Translate(repo string, spec TransSpec) (out string, err error) {
 			}
 			si.fields = append(si.fields, f.Name())
 			si.ftypes = append(si.ftypes, ft)
+			si.goNames = append(si.goNames, f.Name())
+		}
+		{ // [stable] emit the expected names in the expected order when only names / order changed
+			var tys []string
+			for i := 0; i < st.NumFields(); i++ {
+				tys = append(tys, fieldTypeString(st.Field(i).Type()))
+			}
+			if order, names, ok := stableFields(si.goNames, tys, spec.Expect[sn]); ok {
+				var gn []string
+				var ft []gtype
+				for _, j := range order {
+					gn, ft = append(gn, si.goNames[j]), append(ft, si.ftypes[j])
+				}
+				si.fields, si.goNames, si.ftypes = names, gn, ft
+			}
 		}
 		t.global[sn], t.global["mk"+sn], t.global["zero_"+sn] = true, true, true
 		for _, f := range si.fields {
@@ -293,19 +420,29 @@ func Translate(repo string, spec TransSpec) (out string, err error) {
 			return "", fmt.Errorf("function %s not found in %s (or it has no body)", fn, spec.Dir)
 		}
 	}
+	t.addFrags20(spec) // [ext:T20]
 	t.analyse()
+	var fb strings.Builder // [ext:T20] functions first (they register the constants they use), constants emitted before them
 	for _, fi := range t.order {
-		sb.WriteString("\n" + t.emitFunc(fi))
+		if t.seq.extern[fi.goName] { // [seq] emitted by another area
+			continue
+		}
+		fb.WriteString("\n" + t.emitFunc(fi))
 		// proofs unfold generated definitions through this hint database, so that a helper function that appears
 		// in the source later is unfolded without touching the proof scripts
-		fmt.Fprintf(&sb, "#[export] Hint Unfold %s : go2v.\n", fi.name)
+		fmt.Fprintf(&fb, "#[export] Hint Unfold %s : go2v.\n", fi.name)
 	}
+	sb.WriteString(t.consts20())
+	sb.WriteString(t.record08()) // [ext:T08] Record Foreign
+	sb.WriteString(t.consts15()) // [ext:T15] error kinds
+	t.shape15()                  // [ext:T15] the shape the area's proof scripts cover (else: degrade)
+	sb.WriteString(fb.String())
 	return sb.String(), nil
 }
 
 func (si *structInfo) emit() string {
 	var b strings.Builder
-	fmt.Fprintf(&b, "\n(* type %s struct *)\nRecord %s : Type := mk%s {", si.name, si.name, si.name)
+	fmt.Fprintf(&b, "\n(* type %s struct%s *)\nRecord %s : Type := mk%s {", si.name, si.renameNote(), si.name, si.name)
 	for i, f := range si.fields {
 		if i > 0 {
 			b.WriteString(";")
@@ -324,12 +461,16 @@ func (si *structInfo) emit() string {
 		}
 		b.WriteString(".\n")
 	}
-	fmt.Fprintf(&b, "Definition zero_%s : %s := mk%s", si.name, si.name, si.name)
-	for _, ft := range si.ftypes {
-		b.WriteString(" " + ft.zero())
+	if si.hasFunc() { // a nil function value is not modelled: no zero value (declarations needing one are refused)
+		fmt.Fprintf(&b, "#[export] Hint Unfold")
+	} else {
+		fmt.Fprintf(&b, "Definition zero_%s : %s := mk%s", si.name, si.name, si.name)
+		for _, ft := range si.ftypes {
+			b.WriteString(" " + ft.zero())
+		}
+		b.WriteString(".\n")
+		fmt.Fprintf(&b, "#[export] Hint Unfold zero_%s", si.name)
 	}
-	b.WriteString(".\n")
-	fmt.Fprintf(&b, "#[export] Hint Unfold zero_%s", si.name)
 	for _, f := range si.fields {
 		fmt.Fprintf(&b, " set_%s_%s %s_%s", si.name, f, si.name, f)
 	}
@@ -349,7 +490,7 @@ func (t *Translator) addFunc(key string) *funcInfo {
 	if fi := t.funcs[obj]; fi != nil {
 		return fi
 	}
-	fi := &funcInfo{decl: fd, obj: obj, goName: key, name: "g_" + strings.ReplaceAll(key, ".", "_"), callees: map[*funcInfo]bool{}}
+	fi := &funcInfo{decl: fd, obj: obj, goName: key, name: "g_" + strings.NewReplacer(".", "_", ":", "_").Replace(key), callees: map[*funcInfo]bool{}}
 	t.funcs[obj] = fi
 	t.global[fi.name] = true
 	sig := obj.Type().(*types.Signature)
@@ -357,10 +498,12 @@ func (t *Translator) addFunc(key string) *funcInfo {
 		t.fail(fd, "variadic function %s", key)
 	}
 	if r := sig.Recv(); r != nil {
-		fi.recv = r
-		fi.recvT = t.typeOf(r.Type(), fd)
-		if fi.recvT.k != kStruct {
-			t.fail(fd, "receiver type %s", r.Type())
+		if !t.recv20(fi, r) { // [ext:T20] value receiver of a named integer type; unused receiver of an untranslatable type
+			fi.recv = r
+			fi.recvT = t.typeOf(r.Type(), fd)
+			if fi.recvT.k != kStruct {
+				t.fail(fd, "receiver type %s", r.Type())
+			}
 		}
 	}
 	for i := 0; i < sig.Params().Len(); i++ {
@@ -380,8 +523,12 @@ func (t *Translator) addFunc(key string) *funcInfo {
 		if g.k == kStruct && g.ptr {
 			t.fail(fd, "pointer result of %s", key)
 		}
+		if g.k == kFunc {
+			t.fail(fd, "function-typed result of %s", key)
+		}
 		fi.results = append(fi.results, g)
 	}
+	t.outs08(fi, key, sig) // [ext:T08] output parameters
 	return fi
 }
 
@@ -401,7 +548,7 @@ func (t *Translator) calleeOf(call *ast.CallExpr) (*types.Func, ast.Expr) {
 		}
 	case *ast.SelectorExpr:
 		if sel := t.info.Selections[f]; sel != nil && sel.Kind() == types.MethodVal {
-			if fn, ok := sel.Obj().(*types.Func); ok {
+			if fn, ok := sel.Obj().(*types.Func); ok && (t.seq == nil || fn.Pkg() == t.seq.pkg) { // [seq] not methods of stub packages
 				return fn.Origin(), f.X
 			}
 		}
@@ -455,6 +602,8 @@ func (t *Translator) assigned(n ast.Node, set map[types.Object]bool) {
 		return
 	}
 	ast.Inspect(n, func(m ast.Node) bool {
+		t.seqAssigned(m, set) // [seq] writes through h := &s[i] and atomic stores
+		t.assigned08(m, set)  // [ext:T08] slice arguments a foreign function writes
 		switch x := m.(type) {
 		case *ast.AssignStmt:
 			for _, l := range x.Lhs {
@@ -489,6 +638,19 @@ func (t *Translator) assigned(n ast.Node, set map[types.Object]bool) {
 					}
 				}
 			}
+			for _, a := range t.writtenArgs(x) { // [func] in-out slice arguments (trans_func.go)
+				if o, _ := t.rootObj(a); o != nil {
+					set[o] = true
+				}
+			}
+			if fn, _ := t.calleeOf(x); fn != nil { // [ext:T20] package-level state written by the callee
+				if fi := t.funcs[fn]; fi != nil {
+					for g := range fi.gwrites {
+						set[g.obj] = true
+					}
+				}
+			}
+			t.outAssigned15(x, func(o types.Object) { set[o] = true }) // [ext:T15] slices written through out-parameters
 		}
 		return true
 	})
@@ -521,23 +683,29 @@ func (t *Translator) analyse() {
 		}
 		for _, fi := range todo {
 			seen[fi] = true
-			ast.Inspect(fi.decl.Body, func(m ast.Node) bool {
+			ast.Inspect(t.body(fi), func(m ast.Node) bool { // [seq] t.body: without a timed tail
 				if c, ok := m.(*ast.CallExpr); ok {
 					if fn, _ := t.calleeOf(c); fn != nil {
 						fi.callees[t.funcFor(fn, c)] = true
 					}
 				}
+				if id, ok := m.(*ast.Ident); ok { // a package function used as a value (trans_func.go)
+					if fn := t.funcValueRef(id); fn != nil {
+						fi.callees[t.funcFor(fn, id)] = true
+					}
+				}
 				return true
 			})
-			fi.loops = hasLoop(fi.decl.Body)
+			fi.loops = hasLoop(t.body(fi))
 		}
 	}
+	t.analyseInOut()
 	for changed := true; changed; {
 		changed = false
 		for _, fi := range t.funcs {
 			if fi.recv != nil && fi.recvT.ptr && !fi.writes {
 				set := map[types.Object]bool{}
-				t.assigned(fi.decl.Body, set)
+				t.assigned(t.body(fi), set)
 				if set[fi.recv] {
 					fi.writes, changed = true, true
 				}
@@ -546,6 +714,15 @@ func (t *Translator) analyse() {
 				if c.loops && !fi.loops {
 					fi.loops, changed = true, true
 				}
+			}
+			if t.globals20(fi) { // [ext:T20]
+				changed = true
+			}
+			if t.outs15(fi) { // [ext:T15] slice parameters written in place
+				changed = true
+			}
+			if t.foreign08(fi) { // [ext:T08]
+				changed = true
 			}
 		}
 	}
